@@ -280,3 +280,25 @@ def temperature_program(draw, t_start, total_hours):
         c2 = (math.exp(t_end / c0) - c1) / h
         coeffs = [c0, c1, c2]
     return {"type": kind, "coefficients": coeffs}
+
+
+# ------------------------------------------------------------------------------------ solver cases
+@st.composite
+def solver_case(draw, models=("NRTL", "UNIQUAC"), modes=("vacuum", "temperature", "pressure"), t_low=120.0,
+                builtin_share=0.5, fractions=None, uq_family=None, nrtl_family=None):
+    """One flux-solver question in plain data: mixture, activity model, feed state, permeate condition,
+    explicit permeances (kg/(m2 h kPa)) and precision."""
+    mdl = draw(st.sampled_from(list(models)))
+    mix = draw(mixture((mdl,), builtin_share, nrtl_family=nrtl_family, uq_family=uq_family))
+    t = draw(feed_temperature)
+    return {
+        "mixture": mix,
+        "model": mdl,
+        "T": t,
+        "x": draw(fractions if fractions is not None else fraction()),
+        "basis": draw(basis),
+        "perm": draw(permeate(t, modes, t_low)),
+        "p1": draw(permeance_value),
+        "p2": draw(permeance_value),
+        "precision": draw(precision),
+    }
